@@ -409,7 +409,7 @@ class Hang(Exception):
     """a single path ran longer than PATH_SECONDS of wall time (non-terminating loop in the code under test)"""
 
 
-PATH_SECONDS = int(os.environ.get('VERIF_PATH_SECONDS', '600') or 600)
+PATH_SECONDS = int(os.environ.get('VERIF_PATH_SECONDS', '200') or 200)
 
 
 def _on_alarm(signum, frame):
@@ -455,6 +455,10 @@ def explore(fn, on_path=None, max_paths=10 ** 9, max_seconds=None):
                 if on_path:
                     on_path(r, c)
                 st.paths += 1
+                if isinstance(r, Hang):
+                    # one non-terminating path is reported; its siblings would each cost PATH_SECONDS again
+                    st.incomplete = st.incomplete or 'stopped after a path that did not terminate'
+                    break
             except PathAbort:
                 st.aborted += 1
             if st.paths + st.aborted >= max_paths:
